@@ -29,6 +29,7 @@ func c09HugeDoc(n int) string {
 // between calls of one process cannot corrupt both sides of the comparison.
 func c09(tier string) {
 	ctx := lib.NewCtx("C09", tier)
+	ctx.HangIsViolation = true
 	ctx.Rule = "profiles (all constraint families, nested sub-results, source-map locations, a 36-validation profile) x histories of 6-40 documents through ONE compiled profile: repeats, failing-then-passing, documents with lexical maps after documents without, malformed JSON, JSON-LD rejections, a >1 MiB report, and calls made to fail in the middle by the verif fault hook (error and panic at evaluate / build_report / normalize); each operation's report bytes and error-ness are compared with a fresh process's ValidateWithConfiguration of the profile TEXT on the same document; reports returned earlier are re-read at the end of the history; " +
 		"non-trivial & distinct = (profile, history position) whose document has results and follows a different document"
 	ctx.Assumptions = []string{"fixed clock and default report configuration on both sides", "the reference process is the same harness binary (mode `child report`), started once per (profile, document)"}
@@ -72,7 +73,11 @@ func c09(tier string) {
 	}
 	// whatever the source path makes of an unusual text, the compiled path must make the same of it
 	common := []string{"{}", "[]", c04Good, "{\"@graph\":", "", "not json at all", `{"@context": 5}`, `{"@id": 5}`,
-		"\ufeff" + c04Good, "  \r\n\t" + c04Good + "\r\n", c04Good + " trailing junk", c04Good + c04Good, "\ufeff", "\x00" + c04Good}
+		"\ufeff" + c04Good, "  \r\n\t" + c04Good + "\r\n", c04Good + " trailing junk", c04Good + c04Good, "\ufeff", "\x00" + c04Good,
+		// documents answered with an error from deep inside the normalizer (broken source maps)
+		strings.Replace(lib.SourceMapDoc(), `"http://a.ml/vocabularies/document-source-maps#element":[{"@value":"http://ex.org/n1"}],`, "", 1),
+		strings.Replace(lib.SourceMapDoc(), `,"http://a.ml/vocabularies/document-source-maps#value":[{"@value":"[(7,2)-(9,4)]"}]`, "", 1)}
+	nCommon := len(common)
 	for _, p := range c05Profiles() {
 		defs = append(defs, pdef{p.Text(), append(append([]string{}, c05docs...), common...)})
 	}
@@ -124,7 +129,9 @@ func c09(tier string) {
 		r := lib.CaseRand(ctx.Seed, 9, 1000+h)
 		pi := h % len(defs)
 		def := defs[pi]
+		ctx.Begin(fmt.Sprintf("history %d: compilation", h), map[string]string{"profile": def.text})
 		cp := lib.Compile(def.text, nil)
+		ctx.End()
 		if cp.Failed() {
 			ctx.Eval("")
 			ctx.Violation("call-failed", "profile does not compile: "+cp.ErrString(), map[string]any{"profile": def.text})
@@ -136,10 +143,39 @@ func c09(tier string) {
 			report, copy string
 		}
 		var steps []step
+		burstLeft, burstDoc, burstAt := 0, 0, -1
+		if r.Intn(6) == 0 {
+			burstAt = r.Intn(3)
+			var unusual, broken []int
+			for di, d := range def.docs {
+				for ci, c := range common {
+					if d == c {
+						unusual = append(unusual, di)
+						if ci >= nCommon-2 {
+							broken = append(broken, di) // the broken source maps
+						}
+					}
+				}
+			}
+			burstDoc = unusual[r.Intn(len(unusual))] // one of the unusual texts, mostly failing ones
+			if r.Intn(2) == 0 && len(broken) > 0 {
+				burstDoc = broken[r.Intn(len(broken))]
+			}
+			length += 40
+			ctx.Count("histories_with_a_failure_burst", 1)
+		}
 		prev := -1
 		var trace []string
 		for s := 0; s < length; s++ {
+			if s == burstAt {
+				burstLeft = 12 + r.Intn(29)
+			}
 			di := r.Intn(len(def.docs))
+			if burstLeft > 0 {
+				// a run of calls that fail in the same way (every sixth history has one of 12-40 calls)
+				burstLeft--
+				di = burstDoc
+			}
 			switch r.Intn(6) {
 			case 0:
 				if prev >= 0 {
@@ -158,7 +194,9 @@ func c09(tier string) {
 				ci = r.Intn(len(cfgs)) // partial and custom report configurations, interleaved
 				ctx.Count("steps_under_non_default_report_configuration", 1)
 			}
+			ctx.Begin(fmt.Sprintf("history %d step %d after %s", h, s, strings.Join(trace, " ")), map[string]string{"profile": def.text, "data": def.docs[di]})
 			o := lib.ValidateCompiledCfg(cp.Q, def.docs[di], nil, lib.Epoch2000, cfgs[ci])
+			ctx.End()
 			if fault != "" {
 				os.Unsetenv("ACV_VERIF_FAULT")
 				ctx.Count("injected_faults", 1)
@@ -210,7 +248,9 @@ func c09(tier string) {
 		// the profile text, validated in this same process after the history, gives the fresh result as well
 		di := r.Intn(len(def.docs))
 		if want, ok := fresh(pi, di, 0); ok {
+			ctx.Begin(fmt.Sprintf("history %d: profile text after %s", h, strings.Join(trace, " ")), map[string]string{"profile": def.text, "data": def.docs[di]})
 			o := lib.Validate(def.text, def.docs[di])
+			ctx.End()
 			got := o.Report
 			if o.Failed() {
 				got = "ERROR"
